@@ -19,7 +19,8 @@ RULE = ("twin execution with a transformation instead of a scale: for random inv
         " Also 8x8 collections of transformations (batched inverse kernels) and transformations edited in place; complex (Gaussian integer) matrices on points, hyperplanes and their joins / meets; both sides of every commutation rule are evaluated inside the judgement (a side that raises while the other returns is a violation); pairs of 3D lines through a point in special position (coordinates adding up to zero, on an axis, at infinity); integer matrices with determinants of 10^3..10^5 on objects with decimal coordinates; 3D lines in covariant form (covariant_tensor) under transformations.")
 SHARDS = (8, 16)
 REQUIRED = ["commute.join", "commute.meet", "incidence", "crossratio", "matrix_transform", "polytope"]
-ASSUMPTIONS = ["exact inverse for integer matrices; numpy trusted for floats"]
+ASSUMPTIONS = ["exact inverse for integer matrices; numpy trusted for floats",
+               "the tangency of an image is judged only where the rounding error of h^T D h (64 eps |D| |h|^2 n^2) stays below the library's absolute tolerance 1e-8"]
 EXHAUSTIVE = {"quick": [], "thorough": []}
 
 
@@ -331,7 +332,18 @@ def g_commute(ctx, rng, i):
                     same_bool("incidence", "quadric.contains(point off it)", Q2.contains(P[0]), (t * Q2).contains(t * P[0]), [t, Q2, P[0]])
                     h = Q2.tangent(xp) if dim == 3 else g.Line(A2 @ x0)
                     if cond < 1e4:
-                        same_bool("incidence", "is_tangent(tangent hyperplane)", Q2.is_tangent(h), (t * Q2).is_tangent(t * h), [t, Q2, h])
+                        # the library's tangency test compares h^T D h with the absolute tolerance 1e-8: it is judged only where the rounding
+                        # error of that quantity (eps * |D| * |h|^2 for the image) stays below the tolerance
+                        try:
+                            tq_, th_ = t * Q2, t * h
+                            D_ = np.linalg.inv(np.asarray(tq_.array, dtype=float))
+                            noise = 64 * np.finfo(float).eps * float(np.abs(D_).max()) * float(np.abs(np.asarray(th_.array, dtype=float)).max()) ** 2 * n * n
+                        except Exception:
+                            noise = 0.0
+                        if noise < 1e-8:
+                            same_bool("incidence", "is_tangent(tangent hyperplane)", Q2.is_tangent(h), (t * Q2).is_tangent(t * h), [t, Q2, h])
+                        else:
+                            ctx.skip("incidence", "tangency of the image decided inside the rounding noise of the absolute tolerance (magnitude of the image representatives)")
                         same_bool("incidence", "is_tangent(other hyperplane)", Q2.is_tangent(H[0]), (t * Q2).is_tangent(t * H[0]), [t, Q2, H[0]])
             same_bool("incidence", "quadric.contains(generic)", Q.contains(pc), (t * Q).contains(t * pc), [t, Q, pc])
 
